@@ -112,6 +112,8 @@ func (fc *FnCtx) callClosure(instr ssa.Instruction, cl *Closure, args []Val, st 
 	// closures: contract under the closure's own name, else havoc
 	con := fc.eng.contractFor(cl.Fn)
 	if con != nil && !con.Pure {
+		fc.curClosure = cl
+		defer func() { fc.curClosure = nil }()
 		return fc.callByContract(instr, fc.eng.shortFn(cl.Fn), con, cl.Fn, cl.Fn.Signature, args, st, nil)
 	}
 	fc.termArgs(args)
@@ -306,6 +308,12 @@ func (fc *FnCtx) callByContract(instr ssa.Instruction, name string, con *Contrac
 	site := fc.siteOrdinal(instr, name)
 	for j, c := range con.Requires {
 		g := fc.transBool(env, c)
+		if fc.con != nil && fc.con.CallPreAssumed && !(fn != nil && fn == fc.fn) {
+			// `callpre assumed`: the callee's precondition is an assumption of this function, reported
+			fc.assume(st, g)
+			fc.note("requires of " + name + " assumed at its call sites in " + fc.fnName() + " (callpre assumed): " + c.Text)
+			continue
+		}
 		fc.oblige(st, "call-pre", fmt.Sprintf("%s#call-pre#%s.%d@%d", fc.fnName(), name, j, site), g, fc.eng.pos(instr.Pos()), "requires of "+name+": "+c.Text)
 	}
 	// termination of recursion (lemmas: induction must be well-founded; spec functions: definition must be)
